@@ -68,8 +68,12 @@ func (p *Program) normaliseOnce(known map[string]bool, round int) (map[string][]
 		everInlined = map[string]bool{}
 	}
 	cands := map[*types.Func]*inlineCand{}
+	aliased := map[*types.Func]bool{}
+	for _, f := range funcAliases {
+		aliased[f] = true
+	}
 	for _, fs := range p.allSrc {
-		if fs.Decl == nil || fs.Obj == nil || known[fs.Name] {
+		if fs.Decl == nil || fs.Obj == nil || known[fs.Name] || aliased[fs.Obj] {
 			continue
 		}
 		if c := p.inlinable(fs); c != nil {
@@ -99,7 +103,7 @@ func (p *Program) normaliseOnce(known map[string]bool, round int) (map[string][]
 	// folded into their call sites first; such a function is inlined into its
 	// callers in a later round, once its text no longer contains them
 	for _, fs := range p.allSrc {
-		if fs.Decl == nil || fs.Obj == nil || known[fs.Name] {
+		if fs.Decl == nil || fs.Obj == nil || known[fs.Name] || aliased[fs.Obj] {
 			continue
 		}
 		if ed, n := p.inlineLocalClosures(fs, read); len(ed) > 0 {
@@ -118,6 +122,13 @@ func (p *Program) normaliseOnce(known map[string]bool, round int) (map[string][]
 	sort.Slice(sites, func(i, j int) bool { return sites[i].Call.Lparen < sites[j].Call.Lparen })
 	busyStmt := map[ast.Node]bool{}
 	inlined := map[*types.Func]int{}
+	type pendingInline struct {
+		fname string
+		ed    []textEdit
+		cand  *inlineCand
+		cs    *CallSite
+	}
+	var pending []pendingInline
 	for _, cs := range sites {
 		callee := calleeOf(cs)
 		if callee == nil {
@@ -181,10 +192,40 @@ func (p *Program) normaliseOnce(known map[string]bool, round int) (map[string][]
 		if overlap {
 			continue
 		}
-		edits[fname] = append(edits[fname], ed...)
-		inlined[callee]++
-		everInlined[cand.fs.Name] = true
-		notes = append(notes, fmt.Sprintf("%s inlined into %s at %s", cand.fs.Name, cs.In.Root().Name, p.PosStr(cs.Call.Pos())))
+		pending = append(pending, pendingInline{fname, ed, cand, cs})
+		edits[fname] = append(edits[fname], ed...) // provisional: keeps later sites from overlapping
+	}
+	// innermost first: a helper into whose own body something is inlined in
+	// this round is inlined into its callers in the next one, with its final
+	// body (the continuation forms restore the code as it was before the
+	// extraction only in that order)
+	receives := map[*FuncSrc]bool{}
+	for _, pi := range pending {
+		receives[pi.cs.In.Root()] = true
+	}
+	provisional := map[string]map[int]bool{}
+	for _, pi := range pending {
+		if receives[pi.cand.fs] {
+			if provisional[pi.fname] == nil {
+				provisional[pi.fname] = map[int]bool{}
+			}
+			for _, e := range pi.ed {
+				provisional[pi.fname][e.start] = true
+			}
+			continue
+		}
+		inlined[pi.cand.fs.Obj]++
+		everInlined[pi.cand.fs.Name] = true
+		notes = append(notes, fmt.Sprintf("%s inlined into %s at %s", pi.cand.fs.Name, pi.cs.In.Root().Name, p.PosStr(pi.cs.Call.Pos())))
+	}
+	for fname, drop := range provisional {
+		var keep []textEdit
+		for _, e := range edits[fname] {
+			if !drop[e.start] {
+				keep = append(keep, e)
+			}
+		}
+		edits[fname] = keep
 	}
 	// a helper without any use left disappears (blank lines keep the
 	// line numbers): it is not a function of the program any more
@@ -250,8 +291,6 @@ func (p *Program) inlinable(fs *FuncSrc) *inlineCand {
 		switch x := n.(type) {
 		case *ast.FuncLit:
 			return false
-		case *ast.LabeledStmt:
-			ok = false
 		case *ast.BranchStmt:
 			if x.Tok == token.GOTO {
 				ok = false
@@ -473,7 +512,32 @@ func (p *Program) inlineAt(cs *CallSite, cand *inlineCand, tag string, read func
 	assigned := map[types.Object]bool{}
 	ast.Inspect(fd.Body, func(n ast.Node) bool {
 		mark := func(e ast.Expr) {
-			if id, ok := unparen(e).(*ast.Ident); ok {
+			e = unparen(e)
+			// v.f = x / v[i] = x on a struct- or array-valued variable changes
+			// the variable itself (a parameter of such a type is a private copy)
+			for {
+				var inner ast.Expr
+				switch x := e.(type) {
+				case *ast.SelectorExpr:
+					inner = x.X
+				case *ast.IndexExpr:
+					inner = x.X
+				}
+				if inner == nil {
+					break
+				}
+				t := dinfo.TypeOf(inner)
+				if t == nil {
+					break
+				}
+				switch t.Underlying().(type) {
+				case *types.Struct, *types.Array:
+					e = unparen(inner)
+					continue
+				}
+				break
+			}
+			if id, ok := e.(*ast.Ident); ok {
 				if o := dinfo.Uses[id]; o != nil {
 					assigned[o] = true
 				}
@@ -769,7 +833,7 @@ func (p *Program) inlineAt(cs *CallSite, cand *inlineCand, tag string, read func
 	contAssign := false
 	var contThen *ast.BlockStmt
 	if ifs, ok := stmt.(*ast.IfStmt); ok && ifs.Else == nil && (role == "ifinit" || role == "ifcond") && sig.Results().Len() == 1 && len(ifs.Body.List) > 0 {
-		if _, endsRet := ifs.Body.List[len(ifs.Body.List)-1].(*ast.ReturnStmt); endsRet {
+		if endsWithJump(ifs.Body) {
 			if role == "ifinit" {
 				as := ifs.Init.(*ast.AssignStmt)
 				if len(as.Lhs) == 1 {
@@ -820,7 +884,7 @@ func (p *Program) inlineAt(cs *CallSite, cand *inlineCand, tag string, read func
 			if !isIf || ifs.Init != nil || ifs.Else != nil || len(ifs.Body.List) == 0 {
 				continue
 			}
-			if _, endsRet := ifs.Body.List[len(ifs.Body.List)-1].(*ast.ReturnStmt); !endsRet {
+			if !endsWithJump(ifs.Body) {
 				continue
 			}
 			cond := unparen(ifs.Cond)
@@ -977,6 +1041,9 @@ func (p *Program) inlineAt(cs *CallSite, cand *inlineCand, tag string, read func
 				return textEdit{}, false, true
 			}
 			dtext := deferredAt(x.Pos())
+			if contKind != "" && len(x.Results) == 0 && nres > 0 {
+				return textEdit{}, false, true // bare return of named results under a continuation: not supported
+			}
 			if tail {
 				if len(x.Results) == 0 {
 					return textEdit{}, false, true // bare return with named results: not supported here
@@ -1144,7 +1211,11 @@ func (p *Program) inlineAt(cs *CallSite, cand *inlineCand, tag string, read func
 	}
 	if contKind != "" {
 		var g2 strings.Builder
-		g2.WriteString(contPre + "{ " + pdecl.String() + "\n")
+		nd := ""
+		if named {
+			nd = decl.String() // the helper's named results are variables of its body
+		}
+		g2.WriteString(contPre + "{ " + nd + pdecl.String() + "\n")
 		fmt.Fprintf(&g2, "//line %s:%d\n", dfile.Name(), dline)
 		if needLoop {
 			g2.WriteString(label + ": for {" + body + "; break " + label + " }\n")
@@ -1572,4 +1643,21 @@ func endlessLoop(s ast.Stmt) bool {
 	}
 	walk(fs.Body, 0)
 	return !leaves
+}
+
+// endsWithJump: control does not fall out of the end of the block (it ends
+// in a return, a break/continue/goto, or a block that does).
+func endsWithJump(b *ast.BlockStmt) bool {
+	if b == nil || len(b.List) == 0 {
+		return false
+	}
+	switch x := b.List[len(b.List)-1].(type) {
+	case *ast.ReturnStmt:
+		return true
+	case *ast.BranchStmt:
+		return x.Tok == token.BREAK || x.Tok == token.CONTINUE || x.Tok == token.GOTO
+	case *ast.BlockStmt:
+		return endsWithJump(x)
+	}
+	return false
 }
